@@ -975,8 +975,27 @@ func flReader(c *Ctx, a *flAgg) {
 	}
 }
 
-func isWCursor(e *Expr) bool { return e != nil && (e.String() == "r.w" || strings.HasPrefix(e.String(), "r.w@")) }
-func isRCursor(e *Expr) bool { return e != nil && (e.String() == "r.r" || strings.HasPrefix(e.String(), "r.r@")) }
+// a cursor, also when it is written as a sum that reduces to it (r.r + (r.w - r.r))
+func isWCursor(e *Expr) bool { return isCursor(e, "r.w") }
+func isRCursor(e *Expr) bool { return isCursor(e, "r.r") }
+
+func isCursor(e *Expr, name string) bool {
+	if e == nil {
+		return false
+	}
+	if s := e.String(); s == name || strings.HasPrefix(s, name+"@") {
+		return true
+	}
+	l := e.linear()
+	if l == "+1*"+name+" +0" {
+		return true
+	}
+	// versioned cells: +1*r.w@2 +0
+	if strings.HasPrefix(l, "+1*"+name+"@") && strings.HasSuffix(l, " +0") && strings.Count(l, "*") == 1 {
+		return true
+	}
+	return false
+}
 
 // flLineShape checks the found-newline return of readSlice:
 //   i := IndexByte(buf[r+s:w], '\n'); line = buf[r : r+(i+s)+1]; r += (i+s)+1
